@@ -81,7 +81,9 @@ type pathState struct {
 	pcStr   []string
 	nDecide int // decisions that needed the solver on this path
 	em      smtEmitter
-	asserts  int64
+	asserts   int64
+	trackPoss bool
+	possDiff  bool
 	syncMaps map[*value]*omap
 	ufCalls  []ufCall
 	// obligations
